@@ -806,6 +806,19 @@ def run_case(case, rec, mon=None):
     mon.case = case
     kind = case["kind"]
     if kind == "registry":
+        if case.get("all_modules"):
+            # the registry as a program that uses the whole package sees it: every module of pydrobert.speech imported (the
+            # command-line module and the torch ports are imported by nothing else in the package)
+            import importlib
+            import pkgutil
+            import pydrobert.speech as pkg
+
+            for m in pkgutil.walk_packages(pkg.__path__, "pydrobert.speech."):
+                try:
+                    importlib.import_module(m.name)
+                    rec.count("package_modules_imported_before_the_registry_walk")
+                except Exception as e:
+                    rec.note("module %s not importable here: %r" % (m.name, e))
         registry_part(mon, rec)
     elif kind == "factory":
         factory_part(mon, rec)
@@ -834,7 +847,7 @@ def run_case(case, rec, mon=None):
 
 def plan(tier, seed):
     q = tier == "quick"
-    cases = [{"kind": "registry"}, {"kind": "factory"}]
+    cases = [{"kind": "registry"}, {"kind": "factory"}, {"kind": "registry", "all_modules": True}]
     cases += [{"kind": "scenario", "name": n} for n in DIRECTED]
     cases += [{"kind": "scenario", "idx": i, "seed": seed} for i in range(120 if q else 1500)]
     cases += [{"kind": "tree", "idx": i, "seed": seed} for i in range(600 if q else 6000)]
